@@ -335,7 +335,7 @@ def judge_eval(chk: Check, alphabet: T.List[T.Any], env0: T.List[T.Any], cases: 
         if c['st'].startswith('internal:'):
             chk.violation(f"InternalError:{c['st']}@{c['text'][:80]!r}", {'text': c['text'], 'outcome': c['st']})
     cases = [c for c in cases if not c['st'].startswith('internal:')]
-    for part_no, part in enumerate(common.chunks(cases, 200000)):
+    for part_no, part in enumerate(common.size_chunks(cases, 200000, lambda c: {k: c.get(k, []) for k in KEEP_EVAL})):
         with scratch('c01-') as d:
             tf = d / 'cases.json'
             tf.write_text(json.dumps({'alphabet': alphabet, 'env0': env0,
